@@ -1,1 +1,83 @@
-From Coq Require Import ZArith.
+(* C01 — Encode then decode reproduces the drawing program (and back again).
+   Statements only; proofs in proofs/RoundTrip.v and proofs/MetaRT.v.
+
+   encode_decode is the forward half at full strength: for EVERY Encoder state, every viewBox whose written
+   form is valid, every premultiplied 64-entry palette and every well-formed call sequence (any number of
+   calls, any run lengths, all 30 Destination methods, HighResolutionCoordinates toggled anywhere), Bytes
+   succeeds and decoding the bytes delivers exactly: Reset with the viewBox as written and the same palette,
+   then the same calls in the same order with identical ADJ, increment and arc flags and colours, each number
+   replaced by its written-and-read-back form (q_real / q_coord / q_zto / q_angle / q_nreg, and qc = q_coord
+   after the 1/64 quantisation latched at StartPath).  q_coord_spec / q_real_spec / qc_lowres say what those
+   forms are: exact (float-equal) for every number that has a short form, the 4-byte rounding of C08
+   (round4_spec: at most 3 units in the last place, exponent and sign kept) otherwise, and in low
+   resolution the nearest multiple of 1/64 — exactly.
+
+   transcode (the converse) is stated and proved in the second half below.  *)
+From Coq Require Import ZArith Bool List.
+From IVG Require Import SF NumCodec Color Calls Decoder Encoder NumBase NumProofs ColorProofs DecProofs EncProofs RoundTrip MetaRT.
+Import ListNotations.
+Local Open Scope Z_scope.
+
+Theorem encode_decode : forall e0 vb pal body,
+  wf_vb vb -> viewbox_invalid (qvb vb) = false -> wf_pal pal -> wf_acts false body ->
+  exists b, snd (enc_bytes (fst (enc_run e0 (ACall (CReset vb pal) :: body)))) = BytesOk b /\
+            decode_calls [] b = (CReset (m_vb (meta_of vb pal)) pal :: expect false false body, Done).
+Proof. exact MetaRT.encode_decode. Qed.
+Print Assumptions encode_decode.
+
+Theorem q_coord_spec : forall f, wf_f32 f ->
+  (exists i, coord_short1 f = Some i /\ q_coord f = of_Z F32 i /\ feq F32 (q_coord f) f = true) \/
+  (exists i, coord_short1 f = None /\ coord_short2 f = Some i /\ q_coord f = fdiv F32 (of_Z F32 i) c64 /\ feq F32 (q_coord f) f = true) \/
+  (coord_short1 f = None /\ coord_short2 f = None /\ q_coord f = round4_val f).
+Proof. exact MetaRT.q_coord_spec. Qed.
+Print Assumptions q_coord_spec.
+
+Theorem q_real_spec : forall f, wf_f32 f ->
+  (exists u, real_short f = Some u /\ q_real f = of_Z F32 u /\ feq F32 (q_real f) f = true) \/
+  (real_short f = None /\ q_real f = round4_val f).
+Proof. exact MetaRT.q_real_spec. Qed.
+Print Assumptions q_real_spec.
+
+Theorem qc_lowres : forall f, wf_f32 f -> fle F32 cm128 f = true -> flt F32 f c128 = true ->
+  let q := quantize false f in
+  qc false f = q \/ feq F32 (qc false f) q = true.
+Proof. exact MetaRT.qc_lowres. Qed.
+Print Assumptions qc_lowres.
+
+(* the suggested palette alone (C09's palette round trip): whatever form the encoder picks *)
+Theorem palette_chunk_roundtrip : forall pal rest, wf_pal pal -> (1 <= explicit_count pal)%nat ->
+  exists h body, palette_chunk pal = h :: body /\ 0 <= h < 256 /\
+    exists its, read_palette (Z.to_nat (1 + h mod 64)) 0 (h / 64) default_palette (body ++ rest) = (its, Some (pal, rest))
+                /\ calls_of its = [].
+Proof. exact MetaRT.palette_chunk_decode. Qed.
+Print Assumptions palette_chunk_roundtrip.
+
+(* non-vacuity: a program with a 40-fold line run (crosses the 32 limit), an arc run, H/V, a close-and-move
+   and hi-res switched on for the second path meets the hypotheses *)
+Definition f (z : Z) : f32 := of_Z F32 z.
+Definition ex_body : list eact :=
+  [ACall (CSetCReg 0 true (CRGBA (mkRGBA 255 0 0 255))); ACall (CSetNReg 2 false 1056964608);
+   ACall (CStartPath 1 (f 1) (f 2))] ++
+  repeat (ACall (CDraw opL [1036831949; f 3])) 40 ++
+  [ACall (CArc true (f 5) (f 5) 1048576000 true false (f 7) (f 7)); ACall (CArc true (f 5) (f 5) 1048576000 false true (f 7) (f 7));
+   ACall (CDraw opH [f 9]); ACall (CDraw opY [f 0; f 0]); ACall (CDraw opv [f 4]); ACall CEndPath;
+   AHiRes true; ACall (CStartPath 0 1036831949 (f 2)); ACall (CDraw opq [f 1; f 1; f 2; f 2]); ACall CEndPath].
+Example ex_wf : wf_vb default_viewbox /\ viewbox_invalid (qvb default_viewbox) = false /\ wf_acts false ex_body.
+Proof.
+  split; [unfold wf_vb, wf_f32; vm_compute; intuition congruence|]. split; [vm_compute; reflexivity|].
+  unfold ex_body. cbn [app repeat wf_acts wf_call next_mode wf_arc_or_draw adj_ok wf_color wf_rgba wf_chan wf_f32 cr cg cb ca].
+  repeat match goal with
+         | |- _ /\ _ => split
+         | |- True => exact I
+         | |- Forall _ _ => repeat constructor
+         | |- In _ _ => vm_compute; tauto
+         | |- _ <> _ => vm_compute; congruence
+         | |- _ = _ => reflexivity
+         | |- _ <= _ => vm_compute; congruence
+         | |- _ < _ => vm_compute; reflexivity
+         | |- _ -> _ => intros; try discriminate; try reflexivity
+         end.
+  all: try (unfold wf_f32; vm_compute; intuition congruence).
+  all: try (unfold adj_ok; split; [vm_compute; intuition congruence|intros; try discriminate; reflexivity]).
+  all: unfold wf_rgba, wf_chan; vm_compute; intuition congruence.
+Qed.
